@@ -72,7 +72,7 @@ func TestCoreTxProofs(t *testing.T) {
 				continue
 			}
 			perPage := rapid.IntRange(1, 4).Draw(t, "perpage")
-			order := rapid.SampledFrom([]string{"asc", "desc"}).Draw(t, "order")
+			order := rapid.SampledFrom([]string{"asc", "desc", ""}).Draw(t, "order")
 			got := 0
 			for page := 1; got < n; page++ {
 				rs, err := w.core.TxSearch(bg, fmt.Sprintf("tx.height=%d", h), true, ip(page), ip(perPage), order)
@@ -97,5 +97,96 @@ func TestCoreTxProofs(t *testing.T) {
 			}
 		}
 		_ = seen
+
+		// TxSearch over SEVERAL heights: queries matching txs of many blocks, every order, page sizes that make one
+		// page span several heights. Every returned proof is judged against the block at the answer's OWN height.
+		for qi := 0; qi < 3; qi++ {
+			q, qkind := w.multiHeightQuery(t, fmt.Sprintf("mq%d", qi))
+			order := rapid.SampledFrom([]string{"asc", "desc", "desc", ""}).Draw(t, "morder")
+			perPage := rapid.SampledFrom([]int{2, 3, 4, 7, 30, 100}).Draw(t, "mperpage")
+			var prev *ctypes.ResultTx
+			heightsSeen := map[int64]bool{}
+			total := -1
+			for page := 1; page < 200; page++ {
+				var rs *ctypes.ResultTxSearch
+				var err error
+				if p := safely(func() { rs, err = w.core.TxSearch(bg, q, true, ip(page), ip(perPage), order) }); p != nil {
+					t.Fatalf("rpc/core.TxSearch(%q, prove, page %d, per_page %d, order %q) panicked: %v", q, page, perPage, order, p)
+				}
+				if err != nil {
+					if page == 1 {
+						t.Fatalf("rpc/core.TxSearch(%q, order %q): %v", q, order, err)
+					}
+					break // page beyond the last one
+				}
+				total = rs.TotalCount
+				pageHeights := map[int64]bool{}
+				for _, rt := range rs.Txs {
+					b, ok := w.chain.Blocks[rt.Height]
+					if !ok || int(rt.Index) >= len(b.Txs) {
+						t.Fatalf("TxSearch(%q) returned a tx at height %d index %d that the chain does not have", q, rt.Height, rt.Index)
+					}
+					w.checkServedProof(t, "TxSearch/multi-height/"+orderName(order), rt, txRef{Height: rt.Height, Index: int(rt.Index), Tx: b.Txs[rt.Index]})
+					if prev != nil {
+						before := prev.Height < rt.Height || (prev.Height == rt.Height && prev.Index < rt.Index)
+						if (order == "desc") == before {
+							t.Fatalf("TxSearch(%q, order %q): (%d,%d) follows (%d,%d)", q, order, rt.Height, rt.Index, prev.Height, prev.Index)
+						}
+					}
+					prev = rt
+					pageHeights[rt.Height], heightsSeen[rt.Height] = true, true
+				}
+				if len(pageHeights) > 1 {
+					lib.Class(testP, "page-spans-heights:"+orderName(order))
+				}
+				if len(rs.Txs) < perPage {
+					break
+				}
+			}
+			lib.Class(testP, "multi-height-query:"+qkind, fmt.Sprintf("multi-height-result-heights:%s", bucket(len(heightsSeen))))
+			_ = total
+		}
 	})
+}
+
+func orderName(o string) string {
+	if o == "" {
+		return "default"
+	}
+	return o
+}
+
+func bucket(n int) string {
+	switch {
+	case n == 0:
+		return "0"
+	case n == 1:
+		return "1"
+	case n <= 3:
+		return "2-3"
+	}
+	return "4+"
+}
+
+// multiHeightQuery draws a query that (usually) matches transactions of several heights.
+func (w *world) multiHeightQuery(t *rapid.T, label string) (string, string) {
+	switch rapid.SampledFrom([]string{"all", "all", "range", "from", "event", "event-and-range"}).Draw(t, label+".kind") {
+	case "range":
+		a := rapid.Int64Range(w.init, w.tip).Draw(t, label+".a")
+		b := rapid.Int64Range(a, w.tip).Draw(t, label+".b")
+		return fmt.Sprintf("tx.height>=%d AND tx.height<=%d", a, b), "range"
+	case "from":
+		a := rapid.Int64Range(w.init, w.tip).Draw(t, label+".a")
+		return fmt.Sprintf("tx.height>=%d", a), "from"
+	case "event":
+		typ := rapid.SampledFrom([]string{"xfer", "mint", "note"}).Draw(t, label+".type")
+		key := rapid.SampledFrom([]string{"sender", "amount", "memo"}).Draw(t, label+".key")
+		val := rapid.SampledFrom([]string{"alice", "bob", "7", "42"}).Draw(t, label+".val")
+		return fmt.Sprintf("%s.%s='%s'", typ, key, val), "event"
+	case "event-and-range":
+		typ := rapid.SampledFrom([]string{"xfer", "mint", "note"}).Draw(t, label+".type")
+		key := rapid.SampledFrom([]string{"sender", "amount", "memo"}).Draw(t, label+".key")
+		return fmt.Sprintf("%s.%s EXISTS AND tx.height>=%d", typ, key, w.init), "event-and-range"
+	}
+	return "tx.height>0", "all"
 }
